@@ -19,6 +19,7 @@ def eval (s : Store) : Expr → Except Err Val
   | .ite c a b => do let x ← eval s c; if x.truthy then eval s a else eval s b
   | .abs a => do let x ← eval s a; let n ← x.num; pure (.int n.natAbs)
   | .mm k a b => do let x ← eval s a; let y ← eval s b; k.pyPick x y
+  | .toStr a => do let x ← eval s a; let t ← x.pyStr; pure (.str t)
 
 /-- the right-hand sides of a tuple assignment, left to right, all in the same (old) store -/
 def evalList (s : Store) : List Expr → Except Err (List Val)
